@@ -44,7 +44,9 @@ RULE = ("approval elections and cardinal elections whose ballots score every pro
         "party lists, duplicates, random}; EVERY feasible allocation is a candidate; measures Cost_Sat and "
         "Cardinality_Sat (approval), Additive_Cardinal_Sat (cardinal); the ten checkers (core with "
         "up_to_func None/min/max, strong-EJR, EJR/-any/-one, PJR/-any/-one) on each; Equal Shares outcome under "
-        "each approval measure. non-trivial = distinct election on which some checker answers True for one "
+        "each approval measure; every 4th sampled case is a HISTORY: one or two earlier states (one or two ballots "
+        "toggled/rescored/redrawn, and/or another budget; same voters count) are queried on the same objects "
+        "before the final state is reached by in-place edits or item replacement. non-trivial = distinct election on which some checker answers True for one "
         "candidate and False for another")
 ASSUMPTIONS = [
     "hand-written Gallina model of cohesiveness.py / justifiedrepresentation.py tied to the code by differential execution only",
@@ -65,7 +67,11 @@ EXPLANATION = ("Theorems (unbounded, any number of voters/projects, any additive
                "compared inside Coq with the brute-force oracle (property) and with the model (correspondence); the "
                "lattice is asserted on the implementation's answers; the implementation's Equal Shares outcomes must "
                "pass EJR-up-to-any (Cost_Sat) / EJR-up-to-one (Cardinality_Sat) for both the implementation's checker "
-               "and the oracle.  The Equal Shares guarantee itself is NOT proved in Coq (stretch theorem, see note).")
+               "and the oracle (the guarantee itself is proved on the rule's model in Props/C14mes.v).  HISTORY stream: "
+               "a quarter of the sampled cases first query every checker on an earlier state of the election, "
+               "then edit ballots in place / replace profile[i] / change the budget on the SAME instance and "
+               "profile objects; the case file carries the final election, so any answer remembered from the "
+               "earlier state disagrees with the oracle.")
 EXHAUSTIVE = {"thorough": True}
 
 F = Fraction
@@ -200,7 +206,40 @@ def gen(rng, i, tier):
         b = tot                      # keep the number of feasible allocations (<= 2^m) as is; nothing new beyond tot
     order = list(range(m))
     rng.shuffle(order)
-    return _mk(kind, costs, b, ballots, order, tag="5x5" if big else "small")
+    case = _mk(kind, costs, b, ballots, order, tag="5x5" if big else "small")
+    if i % 4 == 1:
+        # HISTORY stream: the election above is the FINAL state; one or two earlier states differ from
+        # their successor in some ballots (same number of voters) and/or in the budget
+        hist = []
+        cur_b, cur_budget = [list(x) for x in ballots], b
+        for _ in range(rng.choice([1, 1, 2])):
+            prev_b = [list(x) for x in cur_b]
+            prev_budget = cur_budget
+            what = rng.choice(["ballot", "ballot", "ballot", "two", "budget", "both"])
+            if what in ("ballot", "two", "both"):
+                for v in rng.sample(range(n), min(n, 2 if what == "two" else 1)):
+                    if kind == "approval":
+                        if rng.random() < 0.6:
+                            bl = set(prev_b[v])
+                            for j in rng.sample(range(m), rng.choice([1, 1, 2]) if m > 1 else 1):
+                                bl ^= {j}
+                            prev_b[v] = sorted(bl)
+                        else:
+                            prev_b[v] = sorted(rng.sample(range(m), rng.randrange(0, m + 1)))
+                    else:
+                        if rng.random() < 0.6:
+                            for j in rng.sample(range(m), rng.choice([1, 1, 2]) if m > 1 else 1):
+                                prev_b[v][j] = F(rng.choice(sp))
+                        else:
+                            prev_b[v] = [F(rng.choice(sp)) for _ in range(m)]
+            if what in ("budget", "both"):
+                prev_budget = rng.choice([tot, max(costs), cur_budget * 2, cur_budget / 2, cur_budget + 1])
+            hist.insert(0, {"ballots": prev_b if kind == "approval" else [[pb.qs(x) for x in bl] for bl in prev_b],
+                            "budget": pb.qs(prev_budget), "how": rng.choice(["edit", "replace"])})
+            cur_b, cur_budget = prev_b, prev_budget
+        case["history"] = hist
+        case["tag"] += "+history"
+    return case
 
 
 # ----------------------------------------------------------------------------------------------
@@ -225,16 +264,77 @@ def impl(case):
     from pabutools.election import ApprovalBallot, Cost_Sat, Cardinality_Sat, Additive_Cardinal_Sat
     from pabutools.rules import method_of_equal_shares
 
-    inst, projs = pb.make_instance(case["costs"], case["budget"], case["order"])
+    from pabutools.election import CardinalBallot
+
+    # a HISTORY case lists the states the election went through before the final one (the one the case
+    # file carries): the objects are built for the first state, queried, and then edited IN PLACE / by
+    # item assignment, so that anything remembered on the instance / profile / ballot objects is exposed
+    states = list(case.get("history") or []) + [{"ballots": case["ballots"], "budget": case["budget"], "how": "final"}]
+    first = states[0]
+    inst, projs = pb.make_instance(case["costs"], first["budget"], case["order"])
     m = len(projs)
     approval = case["kind"] == "approval"
     if approval:
-        prof = pb.make_approval_profile(inst, projs, case["ballots"])
+        prof = pb.make_approval_profile(inst, projs, first["ballots"])
     else:
-        prof = pb.make_cardinal_profile(inst, projs, [{str(j): v for j, v in enumerate(bl)} for bl in case["ballots"]])
+        prof = pb.make_cardinal_profile(inst, projs, [{str(j): v for j, v in enumerate(bl)} for bl in first["ballots"]])
     classes = {"Cost_Sat": Cost_Sat, "Cardinality_Sat": Cardinality_Sat, "Additive_Cardinal_Sat": Additive_Cardinal_Sat}
     any_f = lambda x: min(x, default=0)   # noqa: E731  -- the functions the module itself passes
     one_f = lambda x: max(x, default=0)   # noqa: E731
+
+    def ten(sc, Wp):
+        a = [jr.is_in_core(inst, prof, sc, Wp),
+             jr.is_in_core(inst, prof, sc, Wp, any_f),
+             jr.is_in_core(inst, prof, sc, Wp, one_f)]
+        if approval:
+            a += [jr.is_strong_EJR_approval(inst, prof, sc, Wp),
+                  jr.is_EJR_approval(inst, prof, sc, Wp),
+                  jr.is_EJR_any_approval(inst, prof, sc, Wp),
+                  jr.is_EJR_one_approval(inst, prof, sc, Wp),
+                  jr.is_PJR_approval(inst, prof, sc, Wp),
+                  jr.is_PJR_any_approval(inst, prof, sc, Wp),
+                  jr.is_PJR_one_approval(inst, prof, sc, Wp)]
+        else:
+            a += [jr.is_strong_EJR_cardinal(inst, prof, Wp),
+                  jr.is_EJR_cardinal(inst, prof, Wp),
+                  jr.is_EJR_any_cardinal(inst, prof, Wp),
+                  jr.is_EJR_one_cardinal(inst, prof, Wp),
+                  jr.is_PJR_cardinal(inst, prof, Wp),
+                  jr.is_PJR_any_cardinal(inst, prof, Wp),
+                  jr.is_PJR_one_cardinal(inst, prof, Wp)]
+        return [bool(x) for x in a]
+
+    for k in range(len(states) - 1):
+        cur, nxt = states[k], states[k + 1]
+        # query the election as it is now (every checker, every measure, two allocations) ...
+        for mname in case["measures"]:
+            for W in ([], [0]):
+                ten(classes[mname], [projs[j] for j in W])
+        if approval and not case.get("no_mes"):
+            method_of_equal_shares(inst, prof, sat_class=classes[case["measures"][0]])
+        # ... then move to the next state on the same objects
+        how = cur.get("how", "edit")     # how the voters that change get their next ballot
+        for v, (b0, b1) in enumerate(zip(cur["ballots"], nxt["ballots"])):
+            if b0 == b1:
+                continue
+            if how == "replace":
+                if approval:
+                    prof[v] = ApprovalBallot([projs[j] for j in b1])
+                else:
+                    prof[v] = CardinalBallot({projs[j]: pb.num(x) for j, x in enumerate(b1)})
+            elif approval:
+                for j in b0:
+                    if j not in b1:
+                        prof[v].discard(projs[j])
+                for j in b1:
+                    if j not in b0:
+                        prof[v].add(projs[j])
+            else:
+                for j, x in enumerate(b1):
+                    if b0[j] != x:
+                        prof[v][projs[j]] = pb.num(x)
+        if pb.F(cur["budget"]) != pb.F(nxt["budget"]):
+            inst.budget_limit = pb.num(nxt["budget"])
     out = {"enum": pb.ranks(list(inst)), "measures": []}
     cands = candidates(case)
     for mname in case["measures"]:
@@ -248,27 +348,7 @@ def impl(case):
             rec["pv"] = []
         answers = []
         for W in cands:
-            Wp = [projs[j] for j in W]
-            a = [jr.is_in_core(inst, prof, sc, Wp),
-                 jr.is_in_core(inst, prof, sc, Wp, any_f),
-                 jr.is_in_core(inst, prof, sc, Wp, one_f)]
-            if approval:
-                a += [jr.is_strong_EJR_approval(inst, prof, sc, Wp),
-                      jr.is_EJR_approval(inst, prof, sc, Wp),
-                      jr.is_EJR_any_approval(inst, prof, sc, Wp),
-                      jr.is_EJR_one_approval(inst, prof, sc, Wp),
-                      jr.is_PJR_approval(inst, prof, sc, Wp),
-                      jr.is_PJR_any_approval(inst, prof, sc, Wp),
-                      jr.is_PJR_one_approval(inst, prof, sc, Wp)]
-            else:
-                a += [jr.is_strong_EJR_cardinal(inst, prof, Wp),
-                      jr.is_EJR_cardinal(inst, prof, Wp),
-                      jr.is_EJR_any_cardinal(inst, prof, Wp),
-                      jr.is_EJR_one_cardinal(inst, prof, Wp),
-                      jr.is_PJR_cardinal(inst, prof, Wp),
-                      jr.is_PJR_any_cardinal(inst, prof, Wp),
-                      jr.is_PJR_one_cardinal(inst, prof, Wp)]
-            answers.append([W, [bool(x) for x in a]])
+            answers.append([W, ten(sc, [projs[j] for j in W])])
         rec["answers"] = answers
         rec["mes"] = None
         if approval and not case.get("no_mes"):
@@ -319,7 +399,7 @@ def nontrivial(case, o):
     if not isinstance(o, dict) or "measures" not in o:
         return None
     if _discriminating(o):
-        return [case["kind"], case["costs"], case["budget"], case["ballots"]]
+        return [case["kind"], case["costs"], case["budget"], case["ballots"], case.get("history")]
     return None
 
 
@@ -343,11 +423,21 @@ def stats(cases, obs):
          "empty_ballot": 0, "duplicate_ballots": 0, "zero_scores": 0,
          "discriminating_elections_by_checker": {c: 0 for c in CHECKERS},
          "false_answers_by_checker": {c: 0 for c in CHECKERS},
-         "relaxation_matters": 0, "mes_outcomes": 0, "mes_nonempty": 0}
+         "relaxation_matters": 0, "mes_outcomes": 0, "mes_nonempty": 0,
+         "history_cases": 0, "history_states": 0, "history_in_place_edits": 0, "history_replacements": 0,
+         "history_budget_changes": 0}
     for c, o in zip(cases, obs):
         if not isinstance(o, dict) or "measures" not in o:
             continue
         d[c["kind"]] += 1
+        if c.get("history"):
+            d["history_cases"] += 1
+            sts = c["history"] + [{"ballots": c["ballots"], "budget": c["budget"]}]
+            d["history_states"] += len(sts)
+            for a_, b_ in zip(sts, sts[1:]):
+                ch = sum(1 for x, y in zip(a_["ballots"], b_["ballots"]) if x != y)
+                d["history_replacements" if a_.get("how") == "replace" else "history_in_place_edits"] += ch
+                d["history_budget_changes"] += pb.F(a_["budget"]) != pb.F(b_["budget"])
         d["tag"][c.get("tag", "?")] = d["tag"].get(c.get("tag", "?"), 0) + 1
         n, m = len(c["ballots"]), len(c["costs"])
         d["voters_hist"][str(n)] = d["voters_hist"].get(str(n), 0) + 1
@@ -383,6 +473,25 @@ def stats(cases, obs):
 def shrink(case):
     n, m = len(case["ballots"]), len(case["costs"])
     approval = case["kind"] == "approval"
+    hist = case.get("history") or []
+    # shorter history
+    if hist:
+        c = dict(case)
+        c.pop("history")
+        yield c
+        if len(hist) > 1:
+            for k in range(len(hist)):
+                c = dict(case)
+                c["history"] = hist[:k] + hist[k + 1:]
+                yield c
+        for k in range(len(hist)):       # a state that differs from its successor in the budget only / ballots only
+            nxt = hist[k + 1] if k + 1 < len(hist) else case
+            for key in ("budget", "ballots"):
+                if hist[k][key] != nxt[key]:
+                    c = dict(case)
+                    c["history"] = [dict(h) for h in hist]
+                    c["history"][k][key] = nxt[key]
+                    yield c
     # fewer measures / no Equal Shares call / a single candidate
     if len(case["measures"]) > 1:
         for mn in case["measures"]:
@@ -404,6 +513,8 @@ def shrink(case):
         for v in range(n):
             c = dict(case)
             c["ballots"] = case["ballots"][:v] + case["ballots"][v + 1:]
+            if hist:
+                c["history"] = [dict(h, ballots=h["ballots"][:v] + h["ballots"][v + 1:]) for h in hist]
             yield c
     # drop a project
     if m > 1:
@@ -416,6 +527,9 @@ def shrink(case):
                 c["ballots"] = [ren(b) for b in case["ballots"]]
             else:
                 c["ballots"] = [b[:j] + b[j + 1:] for b in case["ballots"]]
+            if hist:
+                c["history"] = [dict(h, ballots=[ren(b) for b in h["ballots"]] if approval
+                                     else [b[:j] + b[j + 1:] for b in h["ballots"]]) for h in hist]
             if case.get("only_candidates") is not None:
                 oc = []
                 for W in case["only_candidates"]:
